@@ -168,3 +168,10 @@ Theorem C05_check_preproc_define_hang_means_unclosed : forall toks i3, 0 <= i3 -
   forall j, i3 <= j -> truthy (check1 toks j ppd_rpar) = false.
 Proof. exact rpar_pos_none. Qed.
 Print Assumptions C05_check_preproc_define_hang_means_unclosed.
+
+(* after the repair of the TOO_MANY_ARGS call (f414d35): the parameter slice of CheckFuncDeclaration never raises AttributeError *)
+Theorem C05_check_func_decl_args_total : forall toks scope fname_pos v, -1 <= fname_pos ->
+  (exists r, check_func_decl_args toks scope fname_pos v = Ok r) \/
+  (exists m, check_func_decl_args toks scope fname_pos v = Fatal m).
+Proof. exact check_func_decl_args_total. Qed.
+Print Assumptions C05_check_func_decl_args_total.
